@@ -119,7 +119,8 @@ def from_model(hist):
         elif a == "pub":
             cur["steps"].append(U(2)); cur["wires"].append(reg); reg += 1
         elif a == "mul":
-            cur["steps"].append(BIN("mul", R(cur["wires"][-1]), R(cur["wires"][-1]))); cur["wires"].append(reg); reg += 1
+            # (latest wire) * (first wire of this context): values grow like 3^k, not 3^(2^k) -- TLC integers are 32 bit
+            cur["steps"].append(BIN("mul", R(cur["wires"][-1]), R(cur["wires"][0]))); cur["wires"].append(reg); reg += 1
         elif a == "call":
             n = h["n"]
             w = cur["wires"]
